@@ -42,6 +42,6 @@ for wt in wts:
                 continue
             breaks = section(notes, [r"clause", r"broken", r"breaks"]) or " ".join(notes.split())[:400]
             needs = section(notes, [r"manifest", r"trigger", r"needed"])
-            subprocess.run(["/verif/tools/keep_seed.py", wt, name, pid, "--breaks", breaks, "--needs", needs, "--suffix", suffix, "--round", rnd])
+            subprocess.run(["/verif/tools/keep_seed.py", wt, name, pid, "--breaks", breaks, "--needs", needs, f"--suffix={suffix}", "--round", rnd])
         else:
             subprocess.run(["/verif/tools/keep_twin.py", wt, name, pid])
